@@ -20,6 +20,8 @@ import SvgVerif.Model.Doc
 import SvgVerif.Model.Intersect
 import SvgVerif.Model.ArcParam
 import SvgVerif.Model.ArcPointToT
+import SvgVerif.Model.Area
+import SvgVerif.Model.Tangent
 /-! Correspondence driver: one operation per input line, one canonical result per
 output line.  Run as `lake env lean --run Driver.lean < ops.txt`.  The Python
 harness feeds the same operations to the real svgpathtools code and diffs. -/
@@ -653,6 +655,40 @@ def runArcPtt (args : List String) : String :=
     | .fuel => "fuel"
   | _ => "bad-args"
 
+/-! C14: Path.area() of a path of lines/quadratics/cubics with rational control points -/
+def parseAreaSegs (ws : List String) : Option (List (Area.Seg Rat)) :=
+  (splitBar ws).mapM fun g =>
+    match g with
+    | "L" :: r => match parseRats? r with
+      | some [a, b, c, d] => some (.line (a, b) (c, d))
+      | _ => none
+    | "Q" :: r => match parseRats? r with
+      | some [a, b, c, d, e, f] => some (.quad (a, b) (c, d) (e, f))
+      | _ => none
+    | "C" :: r => match parseRats? r with
+      | some [a, b, c, d, e, f, g, h] => some (.cubic (a, b) (c, d) (e, f) (g, h))
+      | _ => none
+    | _ => none
+
+def runPathArea (args : List String) : String :=
+  match parseAreaSegs args with
+  | some segs => showRat (Area.pathArea segs)
+  | none => "bad-args"
+
+/-! C15: the argument of csqrt in the singular branch of bezier_unit_tangent; control points and t as rational pairs -/
+def runTanLimit (args : List String) : String :=
+  match splitBar args with
+  | [ps, [t]] =>
+    match parseRats? ps >>= pairUp, parseRat? t with
+    | some pts, some t =>
+      let cpts : List (Tangent.Cx Rat) := pts.map fun (a, b) => ⟨a, b⟩
+      match Tangent.tangentLimit Tangent.Cx.conj 12 cpts (⟨t, 0⟩ : Tangent.Cx Rat) with
+      | .value v => s!"value {showRat v.re} {showRat v.im}"
+      | .noLimit => "nolimit"
+      | .fuel => "fuel"
+    | _, _ => "bad-args"
+  | _ => "bad-args"
+
 def handle (cmd : String) (args : List String) : String :=
   match cmd with
   | "polyroots01" =>
@@ -747,6 +783,8 @@ def handle (cmd : String) (args : List String) : String :=
       | some n => toString (Enclose.isContainedBy (c == "1") (b == "1") n)
       | none => "bad-args"
     | _ => "bad-args"
+  | "tanlimit" => runTanLimit args
+  | "patharea" => runPathArea args
   | "numlines" =>
     match parseRats? args with
     | some [len, chord] => toString (Enclose.numLines (fun q : Rat => q.ceil) len chord)
@@ -756,6 +794,12 @@ def handle (cmd : String) (args : List String) : String :=
     | [n] => match n.toNat? with
       | some n => toString (Enclose.enclosesPt n)
       | none => "bad-args"
+    | _ => "bad-args"
+  | "lineradial" =>
+    match parseRats? args with
+    | some [a, b, c, d, e, f] =>
+      let r := Radial.lineRadial sqrtStandin a b c d e f
+      s!"{showRat r.1.1} {showRat r.1.2} {showRat r.2.1} {showRat r.2.2}"
     | _ => "bad-args"
   | "bezradial" =>    -- 1-D stub: dist t = |c0 + c1 t + c2 t^2|; args: c0 c1 c2 | roots
     match splitBar args with
